@@ -273,6 +273,7 @@ func genC09(c *Ctx) {
 			}
 		}
 	}
+	c09Drm(c)
 	c09Pacing(c)
 }
 
